@@ -300,7 +300,7 @@ Definition same_but_lines {A} (r r' : res A) : Prop :=
 
 Lemma erase_res_same {A} (r r' : res A) : erase_res idv r = erase_res idv r' -> same_but_lines r r'.
 Proof.
-  destruct r, r'; simpl; intros H; try discriminate H; try exact I; inversion H; auto.
+  destruct r, r'; unfold idv; simpl; intros H; try discriminate H; try exact I; inversion H; auto.
 Qed.
 
 Lemma erase_st_obs s s' : erase_st s = erase_st s' ->
